@@ -160,7 +160,15 @@ func runC02(c *Ctx) {
 						// false edge of a test of its result the one counted call disposed of nothing
 						want := uint8(1)
 						for _, a := range g.AtomsAt(e.loc) {
-							if call, isC := ast.Unparen(a.Expr).(*ast.CallExpr); isC && !a.Val && core.CalleeName(info, call) == "server.LlmRequest.useLoadedRunner" {
+							ae := ast.Unparen(a.Expr)
+							if id, isId := ae.(*ast.Ident); isId { // handedOut := pending.useLoadedRunner(…)
+								if v, isV := info.Uses[id].(*types.Var); isV {
+									if rhs, _, cnt := singleDef(info, f.Body, v); cnt == 1 && rhs != nil {
+										ae = ast.Unparen(rhs)
+									}
+								}
+							}
+							if call, isC := ae.(*ast.CallExpr); isC && !a.Val && core.CalleeName(info, call) == "server.LlmRequest.useLoadedRunner" {
 								if bf := m.lc.fn("LlmRequest.useLoadedRunner"); bf != nil && handsOutOnlyWhenTrue(c, m, bf) {
 									want = 2
 								}
